@@ -14,13 +14,13 @@ package vc01hop
 import (
 	"bufio"
 	"context"
+	"errors"
 	"fmt"
+	"io"
 	"net"
 	"strings"
 	"sync"
 	"time"
-
-	"github.com/foxcpp/maddy/framework/address"
 )
 
 // Script is the behaviour of the hop during one delivery attempt.  Action letters:
@@ -37,16 +37,69 @@ type Script struct {
 	MailAct  byte           //
 	Limit    int            // per-transaction recipient limit (-1 = none) ...
 	LimitAct byte           // ... and what RCPT gets once Limit recipients were accepted
-	Rej      map[string]int // lookup key of a recipient -> reply code of its RCPT
+	Rej      map[string]int // recipient as it appears on the wire -> reply code of its RCPT
 	DataAct  byte           // after the final dot (SMTP) / T,P: to the DATA command
-	Status   map[string]int // LMTP: lookup key -> per-recipient reply code after the final dot
+	Status   map[string]int // LMTP: recipient as on the wire -> per-recipient reply code after the final dot
 	Drop     int            // LMTP: number of per-recipient replies sent before the connection is dropped (-1 = all)
 	QuitAct  byte           // reply to RSET and QUIT
+
+	// Not the hop's doing, but part of the attempt: what is wrong with the spooled body the target
+	// is given (the harness wraps the buffer, see FaultBuffer).
+	BodyOpen     bool // Open fails
+	BodyK        int  // the reader fails after BodyK octets (-1 = it does not fail)
+	BodyTogether bool // the error is returned together with the last octets
 }
 
 func NewScript() *Script {
-	return &Script{MailAct: 'o', Limit: -1, LimitAct: 'o', Rej: map[string]int{}, DataAct: 'o', Status: map[string]int{}, Drop: -1, QuitAct: 'o'}
+	return &Script{MailAct: 'o', Limit: -1, LimitAct: 'o', Rej: map[string]int{}, DataAct: 'o', Status: map[string]int{}, Drop: -1, QuitAct: 'o', BodyK: -1}
 }
+
+// HasBodyFault: is the body of this attempt disturbed?
+func (s *Script) HasBodyFault() bool { return s.BodyOpen || s.BodyK >= 0 }
+
+// ErrInjected is the I/O error of a disturbed body.
+var ErrInjected = errors.New("c01: injected spool read error")
+
+// FaultBuffer is a message body that cannot be read to the end (buffer.Buffer).
+type FaultBuffer struct {
+	Data     []byte
+	OpenErr  bool
+	K        int
+	Together bool
+}
+
+func (b FaultBuffer) Open() (io.ReadCloser, error) {
+	if b.OpenErr {
+		return nil, ErrInjected
+	}
+	k := b.K
+	if k > len(b.Data) {
+		k = len(b.Data)
+	}
+	return &faultReader{data: b.Data[:k], together: b.Together}, nil
+}
+func (b FaultBuffer) Len() int      { return len(b.Data) }
+func (b FaultBuffer) Remove() error { return nil }
+
+type faultReader struct {
+	data     []byte
+	together bool
+	off      int
+}
+
+func (f *faultReader) Read(p []byte) (int, error) {
+	if f.off >= len(f.data) {
+		return 0, ErrInjected
+	}
+	n := copy(p, f.data[f.off:])
+	f.off += n
+	if f.together && f.off >= len(f.data) {
+		return n, ErrInjected
+	}
+	return n, nil
+}
+
+func (f *faultReader) Close() error { return nil }
 
 // Shared is what the listeners of one case have in common.
 type Shared struct {
@@ -91,13 +144,9 @@ func (sh *Shared) Snapshot() (acked [][]string, cmds map[string]int) {
 	return append([][]string{}, sh.Acked...), cmds
 }
 
-func Key(a string) string {
-	k, err := address.ForLookup(a)
-	if err != nil {
-		return a
-	}
-	return k
-}
+// Key identifies a recipient at the hop: the address exactly as it came over the wire.  (Two
+// spellings of one mailbox are two recipients.)
+func Key(a string) string { return a }
 
 // Listen starts a responder on addr ("ip:port", port may be 0).
 func Listen(sh *Shared, addr string, lmtp, utf8 bool) (*Hop, error) {
